@@ -79,7 +79,8 @@ void MetaOptimizer::doInit(const ParameterList& parameters)
       string pname = optDesc_->getParameterNames(i)[j];
       if (parameters.hasParameter(pname))
       {
-        optParameters_[i].addParameter(parameters.parameter(pname));
+        // Use the parameters as processed by the constraint policy (constraints removed if they are to be ignored):
+        optParameters_[i].addParameter(getParameters().parameter(pname));
       }
     }
     nbParameters_[i] = optParameters_[i].size();
